@@ -240,6 +240,33 @@ Proof. unfold sort_by. rewrite <- (app_nil_r l) at 1. apply sort_perm_acc. Qed.
 (* ---------- the statement about the whole function ---------- *)
 Definition core_of (g : group) : Z * Z := let '(cs, he, _) := g in (cs, he).
 
+(* for any arrangement of the anchors that is ordered by start *)
+Lemma chain_sorted N c anchors l : 0 <= c -> Forall (wf N) anchors -> Permutation anchors l -> sortedS l ->
+  let gs := sweep N c l in
+  Permutation anchors (flatten gs) /\
+  (forall g, In g gs ->
+     members g <> [] /\
+     (forall m, In m (members g) -> fst (core_of g) <= s m /\ e m <= snd (core_of g)) /\
+     (exists m, In m (members g) /\ s m = fst (core_of g)) /\
+     (exists m, In m (members g) /\ e m = snd (core_of g)) /\
+     (forall a b, In a (members g) -> In b (members g) -> conn c (members g) a b)) /\
+  (forall g1 g2 a b, In g1 gs -> In g2 gs -> g1 <> g2 -> In a (members g1) -> In b (members g2) -> ~ near c a b) /\
+  (exists lo, inv N c lo gs).
+Proof.
+  intros Hc Hwf Hperm Hsorted gs.
+  assert (Hwf' : Forall (wf N) l).
+  { rewrite Forall_forall in *. intros x Hx. apply Hwf. eapply Permutation_in; [apply Permutation_sym; exact Hperm|exact Hx]. }
+  destruct (sweep_inv N c Hc l Hwf' Hsorted) as [lo Hinv].
+  split; [|split; [|split]].
+  - unfold gs. rewrite sweep_partition. exact Hperm.
+  - intros [[cs he] ms] Hin. destruct Hinv as [Hg _]. rewrite Forall_forall in Hg.
+    destruct (Hg _ Hin) as (Hne & Hall & Hmx & Hmn & Hconn). cbn [members core_of fst snd].
+    split; [exact Hne|]. split; [|split; [exact Hmn|split; [exact Hmx|exact Hconn]]].
+    intros m Hm. destruct (Hall m Hm) as (_ & ? & _ & ?). lia.
+  - intros g1 g2 a b. apply (sep_not_near N c gs lo Hinv).
+  - exists lo. exact Hinv.
+Qed.
+
 Lemma chain_linear N c anchors : 0 <= c -> Forall (wf N) anchors ->
   let gs := sweep N c (sort_by itv_lt anchors) in
   (* every anchor in exactly one group *)
@@ -256,17 +283,9 @@ Lemma chain_linear N c anchors : 0 <= c -> Forall (wf N) anchors ->
   (forall g1 g2 a b, In g1 gs -> In g2 gs -> g1 <> g2 -> In a (members g1) -> In b (members g2) -> ~ near c a b).
 Proof.
   intros Hc Hwf gs.
-  pose proof (sort_perm itv_lt anchors) as Hperm.
-  assert (Hwf' : Forall (wf N) (sort_by itv_lt anchors)).
-  { rewrite Forall_forall in *. intros x Hx. apply Hwf. eapply Permutation_in; [apply Permutation_sym; exact Hperm|exact Hx]. }
-  destruct (sweep_inv N c Hc (sort_by itv_lt anchors) Hwf' (sort_sorted anchors)) as [lo Hinv].
-  split; [|split].
-  - unfold gs. rewrite sweep_partition. exact Hperm.
-  - intros [[cs he] ms] Hin. destruct Hinv as [Hg _]. rewrite Forall_forall in Hg.
-    destruct (Hg _ Hin) as (Hne & Hall & Hmx & Hmn & Hconn). cbn [members core_of fst snd].
-    split; [exact Hne|]. split; [|split; [exact Hmn|split; [exact Hmx|exact Hconn]]].
-    intros m Hm. destruct (Hall m Hm) as (_ & ? & _ & ?). lia.
-  - intros g1 g2 a b. apply (sep_not_near N c gs lo Hinv).
+  destruct (chain_sorted N c anchors (sort_by itv_lt anchors) Hc Hwf (sort_perm itv_lt anchors) (sort_sorted anchors))
+    as (H1 & H2 & H3 & _).
+  split; [exact H1|split; [exact H2|exact H3]].
 Qed.
 
 (* extent of a protocluster: the core extended by the neighbourhood, clipped to the record; it
